@@ -114,6 +114,15 @@ def gen(tier, rng):
                 yield {"kind": "raw", "bytes": b"HTTP/1.1 101 SP\r\nConnection: Upgrade\r\nUpgrade: websocket\r\nX-Padding: " + b"a" * k + acc_line + b"\r\n",
                        "expect_connected": False, "long_line": k}
     yield {"kind": "raw", "bytes": b"HTTP/1.1 101 SP\r\nX-Padding: " + b"a" * 20000 + b"\r\n" + good_hdrs + b"\r\n", "expect_connected": True, "long_line": 20000}
+    # 9. checked header values garbled by bytes that are not valid UTF-8 (nothing may "repair" them before they are compared)
+    def hd(u=b"websocket", c=b"Upgrade", a=None, extra=b""):
+        return b"HTTP/1.1 101 SP\r\nUpgrade: " + u + b"\r\nConnection: " + c + b"\r\nSec-WebSocket-Accept: " + (a or accept_for(key)) + b"\r\n" + extra + b"\r\n"
+    acc_ = accept_for(key)
+    for junk in (b"\xff", b"\xfe", b"\xc3", b"\xe2\x82", b"\x80", b"\xed\xa0\x80"):
+        for raw in (hd(u=b"web" + junk + b"socket"), hd(u=junk + b"websocket"), hd(c=b"Up" + junk + b"grade"), hd(a=acc_[:5] + junk + acc_[5:]),
+                    hd(a=acc_ + junk)):
+            yield {"kind": "raw", "bytes": raw, "expect_connected": False, "garbled": True}
+        yield {"kind": "raw", "bytes": hd(extra=b"Sec-WebSocket-Protocol: cha" + junk + b"t\r\n"), "expect_connected": False, "garbled": True, "subs": ["chat"]}
     # 6. random mixtures
     for _ in range(600 if tier == "quick" else 5000):
         hs = rng.choice(list(variants(key)))
@@ -150,7 +159,8 @@ def build(sc):
         return {"url": "ws://sim.test/start", "rand": DRAWS, "net": net, "limit": sc["limit"],
                 "opts": ({"subprotocols": sc["subs"]} if sc.get("subs") else {})}
     if sc["kind"] == "raw":
-        return {"url": "ws://sim.test/", "rand": DRAWS[:1], "net": [{"addrs": ["A"], "script": [["D", sc["bytes"].hex()]]}]}
+        return {"url": "ws://sim.test/", "rand": DRAWS[:1], "net": [{"addrs": ["A"], "script": [["D", sc["bytes"].hex()]]}],
+                "opts": ({"subprotocols": sc["subs"]} if sc.get("subs") else {})}
     if sc["kind"] == "cut":
         resp = head(101, good + [(b"Sec-WebSocket-Accept", accept_for(key))])
         part = resp[:sc["at"]]
@@ -208,9 +218,10 @@ def run(ctx):
         if c["kind"] == "raw" and ok != c["expect_connected"]:
             shown = re.sub(r"a{40,}", lambda m: "a*%d" % len(m.group(0)), c["bytes"].decode("latin-1"))
             T.fail("spec", {"case": {"kind": "raw", "bytes": shown}}, f"connected={c['expect_connected']}", line[:200],
-                   {"site": "connect", "cls": "accepted-invalid-response" if ok else "rejected-valid-response", "multi_head": "long_line" not in c,
+                   {"site": "connect", "cls": "accepted-invalid-response" if ok else "rejected-valid-response", "multi_head": "long_line" not in c and not c.get("garbled"), "garbled": bool(c.get("garbled")),
                     "long_line": "long_line" in c},
                    what=("a header line of %d padding bytes: its tail is not a header of its own" % c["long_line"]) if "long_line" in c else
+                   "a checked header value with bytes that are not valid UTF-8 inside it is not the expected value" if c.get("garbled") else
                    "with several response heads in the stream, the answer to the handshake is the first head alone")
         if c["kind"] == "cut" and ok:
             T.fail("spec", pub, "connect() raises on a truncated response", line[:200], {"site": "connect", "cls": "truncated-accepted"})
